@@ -34,7 +34,8 @@ RULE = (
 )
 MUST_HIT = ["timeout_between_messages", "observer_busy_at_stop_marker", "zero_detections", "with_stream_saver",
             "free_running_validation", "three_observers", "tokenizer_started_before_some_observer", "queue_backlog_ge_64",
-            "command_observer_many_detections", "player_observer"]
+            "command_observer_many_detections", "player_observer", "real_lazy_file_source", "two_pipelines_side_by_side",
+            "saver_name_without_wav_extension"]
 ASSUMPTIONS = [
     "interleavings are explored at the granularity of queue operations, source reads, observer callbacks, thread start/exit and joins (DESIGN 3.4)",
     "liveness judged under the harness's fair continuation after the generated prefix",
@@ -106,11 +107,24 @@ def judge_files(run, case, exp, blocks):
     """C13 oracles: stream saver, joiner, region saver."""
     sr, sw, ch = run.src.sr, run.src.sw, run.src.ch
     bps = sw * ch
-    if case.get("saver"):
+    if getattr(run, "export_errors", None):
+        raise Violation(f"exporting the recorded audio failed: {run.export_errors[0]!r}", case)
+
+    def read_output(path, ext, what):
+        """final file under the name that was asked for: headerless for .raw, wav otherwise
+        (also when the name has no extension)"""
+        if not os.path.exists(path):
+            raise Violation(f"{what}: no file {os.path.basename(path)!r} after the run", case)
+        if ext == ".raw":
+            with open(path, "rb") as fp:
+                return (sr, sw, ch), fp.read()
         try:
-            params, frames = pipeline.read_wav(run.saver_path)
+            return pipeline.read_wav(path)
         except Exception as exc:  # noqa: BLE001
-            raise Violation(f"saved stream is not a readable wav file: {type(exc).__name__}: {exc}", case)
+            raise Violation(f"{what} is not a readable wav file: {type(exc).__name__}: {exc}", case)
+
+    if case.get("saver"):
+        params, frames = read_output(run.saver_path, getattr(run, "saver_ext", ".wav"), "saved stream")
         if params != (sr, sw, ch):
             raise Violation(f"saved stream header {params} != source {(sr, sw, ch)}", case)
         want = b"".join(blocks)
@@ -122,10 +136,7 @@ def judge_files(run, case, exp, blocks):
         if seen != blocks:
             raise Violation(f"tokenizer received {len(seen)} blocks, wrapped reader produced {len(blocks)} (or content differs)", case)
     if run.joiner is not None:
-        try:
-            params, frames = pipeline.read_wav(run.joiner_path)
-        except Exception as exc:  # noqa: BLE001
-            raise Violation(f"joined-events file is not a readable wav: {type(exc).__name__}: {exc}", case)
+        params, frames = read_output(run.joiner_path, getattr(run, "joiner_ext", ".wav"), "joined-events file")
         nsil, razor = exact_round(run.join_sil, sr)
         sil = b"\0" * (nsil * bps)
         want = sil.join(b for _i, b, _s, _e in exp)
@@ -142,9 +153,7 @@ def judge_files(run, case, exp, blocks):
         for i, b, s, e in exp:
             name = run.tmpl.format(id=i, start=s, end=e, duration=len(b) / bps / sr)
             want_files[name] = b
-        have = {os.path.join(run.dir, f) for f in os.listdir(run.dir)} - {
-            getattr(run, "saver_path", None), getattr(run, "joiner_path", None),
-            getattr(run, "cmd_dir", None), getattr(run, "cmd_log", None)}
+        have = {os.path.join(run.dir, f) for f in os.listdir(run.dir)} - set(getattr(run, "ignore_files", ()))
         if have != set(want_files):
             raise Violation(
                 f"region files {sorted(os.path.basename(x) for x in have)} != expected "
@@ -158,6 +167,17 @@ def judge_files(run, case, exp, blocks):
                 with open(name, "rb") as fp:
                     if fp.read() != b:
                         raise Violation(f"region file {os.path.basename(name)} does not hold its detection", case)
+
+
+def judge_twin(run):
+    """the second pipeline that ran alongside (if any) must be as right as if it had been alone"""
+    tw = getattr(run, "twin", None)
+    if tw is None:
+        return
+    exp2 = pipeline.expected_detections(tw.data, tw.case, tw.thr)
+    tcase = {"twin_of": "see enclosing case", **{k: v for k, v in tw.case.items()}}
+    judge_observers(tw, tcase, exp2)
+    judge_files(tw, tw.case, exp2, tw.src.handed)
 
 
 def trace_classes(run, exp):
@@ -187,6 +207,7 @@ def check_case(case, rec):
         exp = pipeline.expected_detections(run.data, case, run.thr)
         judge_observers(run, case, exp)
         judge_files(run, case, exp, run.src.handed)
+        judge_twin(run)
         if run.src.none_returns > 1:
             raise Violation(f"end of stream requested {run.src.none_returns} times from the source", case)
         classes = trace_classes(run, exp)
@@ -198,6 +219,14 @@ def check_case(case, rec):
             classes.add("three_observers")
         if case.get("start", "start_all") != "start_all":
             classes.add("tokenizer_started_before_some_observer")
+        if case.get("src_kind", "harness") != "harness":
+            classes.add("real_lazy_file_source")
+        if case.get("twin"):
+            classes.add("two_pipelines_side_by_side")
+        if case.get("saver") and case["saver"].get("ext", ".wav") != ".wav":
+            classes.add("saver_name_without_wav_extension")
+        if case.get("saver") and len(run.data) // (run.src.sw * run.src.ch) > 65536:
+            classes.add("saver_more_than_65536_frames")
         if "command" in case["observers"]:
             classes.add("command_observer_many_detections")
         if "player" in case["observers"]:
@@ -257,6 +286,10 @@ def explicit_cases():
         {"audio": dict(a, pat="", tail=[0, 0]), "win": [1, 3, 0, False, False], "saver": None, "observers": [], "choices": []},
         {"audio": a, "win": [1, 2, 0, False, False], "saver": None, "observers": ["rec"],
          "choices": [1] * 40 + [0] * 40 + [2] * 40},
+        {"audio": a, "win": [2, 4, 1, False, False], "saver": {"cache": 0.05, "ext": ""}, "observers": ["rec", "joiner"],
+         "joiner_ext": ".raw", "join_sil": [2, 0], "src_kind": "wav_lazy", "twin": True, "choices": [0, 1, 2, 3, 4, 5, 6] * 40},
+        {"audio": a, "win": [2, 4, 1, False, False], "saver": {"cache": 100.0, "ext": ".raw"}, "observers": ["rec"],
+         "src_kind": "raw_lazy", "twin": True, "choices": [-1] * 60 + [3, 1, 0] * 30},
         {"audio": a, "win": [2, 4, 1, False, False], "saver": None, "observers": ["rec", "rec", "print"],
          "choices": [-1] * 30 + [0, 1, 2] * 20, "start": "tokenizer_first"},
         {"audio": dict(a, B=1, pat="10" * 60, tail=[0, 0]), "win": [1, 1, 0, False, False], "saver": None,
@@ -292,6 +325,21 @@ def strategy(draw, maxwin, free=False):
             lambda l: [x for x in l for _ in range(4)]),   # bursty: each thread runs for a while
     ))
     c["start"] = draw(st.sampled_from(["start_all", "start_all", "start_all", "tokenizer_first", "tokenizer_middle"]))
+    c["src_kind"] = draw(st.sampled_from(["harness", "harness", "harness", "wav_lazy", "raw_lazy"]))
+    if c["saver"]:
+        c["saver"]["ext"] = draw(st.sampled_from([".wav", ".wav", "", ".raw"]))
+    c["joiner_ext"] = draw(st.sampled_from([".wav", ".wav", "", ".raw"]))
+    c["twin"] = draw(rarely(8))
+    if c["saver"] and draw(rarely(60)):
+        # more than 2**16 frames recorded and exported headerless
+        c["audio"].update(B=4096, sw=2, tail=[0, 0], pat="".join(draw(st.lists(st.sampled_from("01"), min_size=17, max_size=20))))
+        c["audio"]["al"] = min(max(c["audio"]["al"], 100), 16000)
+        if c["audio"].get("thr0"):
+            c["audio"]["al"] = min(c["audio"]["al"], 60)
+        c["saver"]["ext"] = ".raw"
+        c["win"] = [1, draw(st.integers(1, 3)), 0, c["win"][3], c["win"][4]]
+        c["choices"] = c["choices"][:80]
+        c["twin"] = False
     if draw(rarely(80)):
         # a CommandLineWorker among the observers, on a stream with many detections (a shell per detection)
         c["audio"]["B"] = 1
